@@ -112,7 +112,10 @@ pub fn run(run: &mut Run) -> PResult {
     run.assume("ranks are obtained by HandRank::from only (the struct's fields are public; hand-assembled inconsistent ranks are outside the statement)");
     super::regress::replay_dir(run, "C07", check_case)?;
     {
-        let vals = [0u16, 1, 2, 10, 11, 166, 167, 1599, 1600, 3325, 7461, 7462, 7463, 7464, 8192, 8193, 15654, 32768, 65534, 65535];
+        // class and validity boundaries, and the values around every power of two (table sizes, masks)
+        let vals = [0u16, 1, 2, 3, 4, 5, 7, 8, 9, 10, 11, 15, 16, 17, 31, 32, 33, 63, 64, 65, 127, 128, 129, 166, 167, 255, 256, 257, 511, 512, 513, 1023, 1024, 1025, 1599, 1600, 2047, 2048, 2049, 3325, 4095, 4096, 4097, 6145, 7461, 7462, 7463, 7464, 8191, 8192, 8193, 15654, 16383, 16384, 16385, 32767, 32768, 32769, 65534, 65535];
+        let singles: Vec<(u16, u16)> = vals.iter().map(|a| (*a, *a)).collect();
+        super::common::disturbance_pass(run, &singles, &|p| pair_clauses(p.0, p.1), &|p| ("C07.pair".into(), json!({"a": p.0, "b": p.1}), format!("({},{})", p.0, p.1)))?;
         let items: Vec<(u16, u16)> = vals.iter().flat_map(|a| vals.iter().map(move |b| (*a, *b))).collect();
         super::common::disturbance_pass(run, &items, &|p| pair_clauses(p.0, p.1), &|p| ("C07.pair".into(), json!({"a": p.0, "b": p.1}), format!("({},{})", p.0, p.1)))?;
     }
